@@ -94,6 +94,126 @@ fn one(o: &mut Out, rng: &mut Rng, cfg: &WCfg, stream: Option<usize>, parts: Vec
     }
 }
 
+/// StreamWriter::write call by call (still images): the number of bytes every call accepts and the bytes handed to the compressor
+/// (= the inflated IDAT stream) vs Model/StreamWriterBuf.v sw_trace
+fn stream_trace_cases(o: &mut Out, rng: &mut Rng, thorough: bool) {
+    use std::io::Write;
+    for k in 0..(if thorough { 1500 } else { 120 }) {
+        let (color, depth) = COLOR_DEPTHS[(k % 15) as usize];
+        let (w, h) = (rng.range(1, 9) as u32, rng.range(1, 5) as u32);
+        let filter = (k / 15 % 6) as u8;
+        let compression = 2 + (k % 10) as u8;
+        let palette = if color == 3 { Some((0..3 * (1usize << depth.min(8))).map(|i| (i * 7) as u8).collect::<Vec<u8>>()) } else { None };
+        let rb = row_bytes(color, depth, w as u64) as usize;
+        let data = rng.bytes(rb * h as usize);
+        let over = k % 7 == 3;   // offer more than the image holds at the end
+        let size = *rng.pick(&[1usize, 3, 64, 4096]);
+        o.mark(&format!("swtrace c{}d{} {}x{} f{} z{} size{} {}", color, depth, w, h, filter, compression, size, hex(&data)));
+        let sink = Sink::new(0, None, false);
+        let r = guarded(|| -> Result<(Vec<String>, Vec<String>, String), String> {
+            let mut e = png::Encoder::new(sink.clone(), w, h);
+            e.set_color(color_of(color));
+            e.set_depth(depth_of(depth));
+            if let Some(p) = &palette { e.set_palette(p.clone()); }
+            set_compression(&mut e, compression);
+            e.set_filter(filter_of(filter));
+            // with sequence validation a still image takes no data beyond its last row (without it the writer starts another image: not this model)
+            e.validate_sequence(over);
+            let mut wr = e.write_header().map_err(|er| format!("{:?}", er))?;
+            let mut sw = wr.stream_writer_with_size(size).map_err(|er| format!("{:?}", er))?;
+            let (mut offered, mut accepted) = (vec![], vec![]);
+            let mut pos = 0usize;
+            let mut guard = 0;
+            while pos < data.len() && guard < 10_000 {
+                guard += 1;
+                let want = match rng.below(6) { 0 => 0, 1 => 1, 2 => rb, 3 => rb + 1, 4 => rng.range(1, 3 * rb as u64 + 2) as usize, _ => rng.range(1, 5) as usize };
+                let end = (pos + want).min(data.len());
+                let piece = &data[pos..end];
+                offered.push(if piece.is_empty() { "-".to_string() } else { hex(piece) });
+                match sw.write(piece) {
+                    Ok(n) => { accepted.push(n.to_string()); pos += n; }
+                    Err(_) => { accepted.push("-1".into()); break; }
+                }
+            }
+            if over {
+                offered.push("2a2b".into());
+                accepted.push(match sw.write(&[0x2a, 0x2b]) { Ok(n) => n.to_string(), Err(_) => "-1".into() });
+            }
+            let fin = match sw.finish() { Ok(()) => "ok".to_string(), Err(er) => format!("{:?}", er) };
+            drop(wr);
+            Ok((offered, accepted, fin))
+        });
+        o.direct_checks += 1;
+        let (offered, accepted, fin) = match r {
+            Ok(Ok(x)) => x,
+            Ok(Err(e)) => { o.violation(viol("encoder-refused-a-legal-image", vec![("why", jstr(&e))])); continue; }
+            Err(m) => { o.violation(viol("encoder-panicked", vec![("why", jstr(&m))])); continue; }
+        };
+        let bytes = sink.0.borrow().accepted.clone();
+        let raw = match crate::validator::parse_strict(&bytes) {
+            Ok(chunks) => {
+                let z: Vec<u8> = chunks.iter().filter(|c| &c.ty == b"IDAT").flat_map(|c| c.data.to_vec()).collect();
+                match crate::validator::inflate_exact(&z) { Ok(r) => hex(&r), Err(e) => format!("INFLATE-ERR {}", e) }
+            }
+            Err(e) => format!("PARSE-ERR {}", e),
+        };
+        if fin != "ok" {
+            o.violation(viol("encoder-refused-a-legal-image", vec![("why", jstr(&format!("finish: {}", fin))), ("offered", jstr(&offered.join(",")))]));
+            continue;
+        }
+        o.case(&format!("swtrace {} {} {} {} {}", filter, bpp_filter(color, depth), rb, h, offered.join(",")), &format!("{}|{}", accepted.join(","), raw),
+            &format!("sw-{}-{}-{}-{}", filter, color, depth, over), offered.len() > 1);
+        o.count("stream-writer-call-traces");
+    }
+}
+
+/// the chunk-packaging layer driven call by call through the hook vs Model/StreamWriterBuf.v cw_trace
+fn chunk_writer_cases(o: &mut Out, rng: &mut Rng, thorough: bool) {
+    for k in 0..(if thorough { 3000 } else { 250 }) {
+        let cap = if k % 10 == 9 { *rng.pick(&[5000usize, 9000, 40_000]) } else { *rng.pick(&[0usize, 1, 2, 3, 5, 8, 13, 64, 4096]) };
+        let nops = rng.range(1, 14) as usize;
+        let mut ops: Vec<Option<Vec<u8>>> = vec![];
+        for _ in 0..nops {
+            // chunk buffers above the default size: bursts of a few KiB, so that a burst arrives while part of a chunk is staged
+            if cap > 4096 {
+                ops.push(if rng.chance(1, 8) { None } else { let n = rng.range(500, 3500) as usize; Some(rng.bytes(n)) });
+                continue;
+            }
+            ops.push(match rng.below(8) {
+                0 => None,
+                1 => Some(vec![]),
+                2 => Some(rng.bytes(cap.max(1))),
+                3 => Some(rng.bytes(2 * cap + 3)),
+                _ => { let n = rng.range(1, 20) as usize; Some(rng.bytes(n)) }
+            });
+        }
+        let text: Vec<String> = ops.iter().map(|x| match x { None => "F".to_string(), Some(d) if d.is_empty() => "-".to_string(), Some(d) => hex(d) }).collect();
+        o.mark(&format!("cwtrace cap={} {}", cap, text.join(",")));
+        let sink = Sink::new(0, None, false);
+        let r = guarded(|| -> Result<Vec<String>, String> {
+            let mut e = png::Encoder::new(sink.clone(), 1, 1);
+            e.set_color(png::ColorType::Grayscale);
+            e.set_depth(png::BitDepth::Eight);
+            let mut wr = e.write_header().map_err(|er| format!("{:?}", er))?;
+            let res = wr.verif_chunk_writer_run(cap, &ops);
+            std::mem::forget(wr);   // no IEND: only what the layer itself emitted is looked at
+            Ok(res)
+        });
+        o.direct_checks += 1;
+        let res = match r { Ok(Ok(x)) => x, Ok(Err(e)) => { o.violation(viol("encoder-refused-a-legal-image", vec![("why", jstr(&e))])); continue; }
+            Err(m) => { o.violation(viol("encoder-panicked", vec![("why", jstr(&m)), ("ops", jstr(&text.join(",")))])); continue; } };
+        let results: Vec<String> = res.iter().map(|x| if x == "ok" { "-1".to_string() } else if let Some(n) = x.strip_prefix("ok:") { n.to_string() } else { "-2".to_string() }).collect();
+        let bytes = sink.0.borrow().accepted.clone();
+        let chunks = match crate::pngbuild::parse(&bytes) { Some(c) => c, None => { o.violation(viol("encoder-output-not-conformant", vec![("why", jstr("unparsable")), ("emitted", jstr(&hex(&bytes)))])); continue; } };
+        let idat: Vec<String> = chunks.iter().filter(|c| &c.ty == b"IDAT").map(|c| hex(&c.data)).collect();
+        if chunks.iter().any(|c| &c.ty != b"IDAT" && &c.ty != b"IHDR") {
+            o.violation(viol("encoder-output-not-conformant", vec![("why", jstr("the chunk layer emitted a chunk that is not IDAT")), ("emitted", jstr(&hex(&bytes)))]));
+        }
+        o.case(&format!("cwtrace {} {}", cap, text.join(",")), &format!("{}|{}", results.join(","), idat.join(",")), &format!("cw-{}-{}", cap, nops % 5), k % 2 == 0 || nops > 2);
+        o.count("chunk-writer-call-traces");
+    }
+}
+
 pub fn run(a: &Args) {
     let mut o = Out::new(&a.out);
     let mut rng = Rng::new(a.seed);
@@ -167,6 +287,8 @@ pub fn run(a: &Args) {
         crate::util::NOISE_ONLY.with(|c| c.set(false));
         o.count("large-chunk-buffers");
     }
+    stream_trace_cases(&mut o, &mut rng, thorough);
+    chunk_writer_cases(&mut o, &mut rng, thorough);
     o.mark("done");
     o.finish();
 }
